@@ -38,7 +38,7 @@ class FnRef:
 class Contract:
     def __init__(self, target, requires=(), ensures=(), raises=(), on_raise=None, modifies=None,
                  returns=None, loops=None, params=None, max_paths=4000, pure_spec=None,
-                 no_return=False, props=(), ghost_asserts=None, notes=""):
+                 no_return=False, props=(), ghost_asserts=None, notes="", assumed=False):
         self.target = target
         self.requires = list(requires)
         self.ensures = list(ensures)
@@ -54,6 +54,7 @@ class Contract:
         self.props = set(props)
         self.ghost_asserts = ghost_asserts or {}
         self.notes = notes
+        self.assumed = assumed   # contract used at call sites but not verified (trusted)
 
 
 class Seq:
@@ -313,7 +314,35 @@ class World:
         return repr(v)
 
     def concretize_dyn(self, model, v, it):
-        return f"<Val {model.eval(v.t, model_completion=True)}>"
+        ev = lambda t: model.eval(t, model_completion=True)
+        names = {c: n for n, c in sym.TAGS.items()}
+        tg = names.get(ev(sym.tag(v.t)).as_long(), "other")
+        out = {"tag": tg}
+        if tg == "bool":
+            out["bool"] = z3.is_true(ev(sym.as_bool(v.t)))
+        elif tg == "int":
+            out["int"] = ev(sym.as_int(v.t)).as_long()
+        elif tg == "float":
+            c = ev(sym.as_fcls(v.t)).as_long()
+            if c == 0:
+                fv = ev(sym.as_fval(v.t))
+                try:
+                    out["float"] = [fv.numerator_as_long(), fv.denominator_as_long()]
+                except Exception:
+                    out["float"] = [0, 1]
+            else:
+                out["float"] = {1: "nan", 2: "inf", 3: "-inf"}[c]
+        elif tg == "str":
+            n = ev(sym.as_slen(v.t)).as_long()
+            arr = sym.as_sarr(v.t)
+            chars = []
+            for k in range(min(n, 200)):
+                cp = ev(z3.Select(arr, k)).as_long()
+                chars.append(chr(cp) if 0 <= cp <= 0x10FFFF and not 0xD800 <= cp <= 0xDFFF else "?")
+            out["str"] = "".join(chars)
+        elif tg in ("list", "tuple", "dict", "set"):
+            out["len"] = ev(sym.v_len(v.t)).as_long()
+        return {"__val__": out}
 
     def concretize_float(self, model, v):
         c = model.eval(v.cls, model_completion=True).as_long()
